@@ -19,7 +19,7 @@ vars == <<cfg, snd, rcv, nops, obs, last>>
 
 InitWith(c) ==
     /\ cfg = c
-    /\ snd = [rwin |-> c.win, buf |-> <<>>, ext |-> <<>>, closing |-> FALSE,
+    /\ snd = [rwin |-> c.win, buf |-> <<>>, ext |-> <<>>, closing |-> FALSE, aw |-> TRUE,
               lclosed |-> FALSE, rclosed |-> FALSE, gone |-> FALSE, out |-> <<>>]
     /\ rcv = [lwin |-> c.win, lclosed |-> FALSE, rclosed |-> FALSE, gone |-> FALSE, out |-> <<>>]
     /\ nops = 0
@@ -54,7 +54,7 @@ Write(ss, data) ==
     IF ss.buf # <<>> THEN [ss EXCEPT !.buf = @ \o data]
     ELSE LET over == Len(data) > ss.rwin
              d1 == IF over THEN SubSeq(data, 1, ss.rwin) ELSE data
-             s1 == IF over THEN [ss EXCEPT !.buf = SubSeq(data, ss.rwin + 1, Len(data))] ELSE ss
+             s1 == IF over THEN [ss EXCEPT !.buf = SubSeq(data, ss.rwin + 1, Len(data)), !.aw = FALSE] ELSE ss
              top == IF over THEN ss.rwin ELSE Len(data)
              s2 == SendDataAll(s1, Chunks(d1, cfg.pkt))
              s3 == [s2 EXCEPT !.rwin = @ - top]
@@ -74,7 +74,7 @@ WriteExt(ss, t, data) ==
          ELSE [ss EXCEPT !.ext = Append(@, <<t, data>>)]
     ELSE LET over == Len(data) > ss.rwin
              d1 == IF over THEN SubSeq(data, 1, ss.rwin) ELSE data
-             s1 == IF over THEN [ss EXCEPT !.ext = << <<t, SubSeq(data, ss.rwin + 1, Len(data))>> >>] ELSE ss
+             s1 == IF over THEN [ss EXCEPT !.ext = << <<t, SubSeq(data, ss.rwin + 1, Len(data))>> >>, !.aw = FALSE] ELSE ss
              s2 == ExtLoop(s1, t, d1)
          IN IF s2.closing THEN LoseConn(s2) ELSE s2
 
@@ -83,8 +83,16 @@ ExtAll(ss, runs) == IF runs = <<>> THEN ss ELSE ExtAll(WriteExt(ss, Head(runs)[1
 
 (* addWindowBytes (as of /repo 4fef648): while the buffered extended runs are re-sent `closing` is held
    back (closing, self.closing = self.closing, 0 ... finally restore), then loseConnection() once. *)
-AddWindow(ss, n) ==
-    LET s1 == [ss EXCEPT !.rwin = @ + n]
+\* aw = areWriting.  "if not self.areWriting and not self.closing: self.areWriting = True; self.startWriting()"
+\* happens BEFORE the buffers are flushed; hook = the application call made from startWriting() (<<>> = none).
+Starts(ss) == ~ss.aw /\ ~ss.closing
+ApplyHook(ss, h, data) ==
+    IF h = <<>> THEN ss
+    ELSE IF h[1] = "write" THEN (IF h[2] = 0 THEN Write(ss, data) ELSE WriteExt(ss, h[2], data))
+    ELSE LoseConn(ss)
+AddWindow(ss, n, h, data) ==
+    LET s0 == [ss EXCEPT !.rwin = @ + n]
+        s1 == IF Starts(s0) THEN ApplyHook([s0 EXCEPT !.aw = TRUE], h, data) ELSE s0
         s2 == IF s1.buf # <<>> THEN Write([s1 EXCEPT !.buf = <<>>], s1.buf) ELSE s1
     IN IF s2.ext # <<>>
        THEN LET s3 == ExtAll([s2 EXCEPT !.ext = <<>>, !.closing = FALSE], s2.ext)
@@ -122,20 +130,28 @@ AppClose ==
     /\ UNCHANGED <<cfg, rcv>>
 
 (* delivery of the oldest R->S message to S *)
-SDeliverAdjust ==
+SDeliverAdjust(h) ==
     /\ obs.qRS # <<>> /\ Head(obs.qRS)[1] = "A"
     /\ LET m == Head(obs.qRS)
-           s1 == IF snd.gone THEN [snd EXCEPT !.out = <<>>] ELSE AddWindow([snd EXCEPT !.out = <<>>], m[2])
-       IN /\ snd' = s1
-          /\ Emit([e |-> "sdeliver", m |-> m, sent |-> s1.out, exc |-> IF snd.gone THEN "KeyError" ELSE ""])
-    /\ UNCHANGED <<cfg, rcv, nops>>
+           s0 == [snd EXCEPT !.out = <<>>]
+           starts == ~snd.gone /\ Starts(s0)
+           data == IF h # <<>> /\ h[1] = "write" THEN Bytes(h[2], h[3]) ELSE <<>>
+           s1 == IF snd.gone THEN s0 ELSE AddWindow(s0, m[2], h, data)
+       IN /\ h # <<>> => /\ starts /\ CanOp
+                          /\ \/ h[1] = "close" /\ h[2] = 0 /\ h[3] = 0
+                             \/ h[1] = "write" /\ h[2] \in 0..2 /\ h[3] \in 1..255 /\ ~obs.closeReq
+          /\ snd' = s1
+          /\ Emit([e |-> "sdeliver", m |-> m, hook |-> h, sw |-> starts, sent |-> s1.out,
+                   exc |-> IF snd.gone THEN "KeyError" ELSE ""])
+    /\ nops' = IF h = <<>> THEN nops ELSE nops + 1
+    /\ UNCHANGED <<cfg, rcv>>
 SDeliverClose ==
     /\ obs.qRS # <<>> /\ Head(obs.qRS)[1] = "C"
     /\ LET m == Head(obs.qRS)
            s0 == [snd EXCEPT !.out = <<>>]
            s1 == IF snd.gone THEN s0 ELSE CloseReceived(s0, LoseConn(s0))
        IN /\ snd' = s1
-          /\ Emit([e |-> "sdeliver", m |-> m, sent |-> s1.out, exc |-> IF snd.gone THEN "KeyError" ELSE ""])
+          /\ Emit([e |-> "sdeliver", m |-> m, hook |-> <<>>, sw |-> FALSE, sent |-> s1.out, exc |-> IF snd.gone THEN "KeyError" ELSE ""])
     /\ UNCHANGED <<cfg, rcv, nops>>
 
 (* delivery of the oldest S->R message to R: ssh_CHANNEL_DATA / ssh_CHANNEL_EXTENDED_DATA *)
@@ -173,13 +189,14 @@ RAdjust(n) ==
     /\ nops' = nops + 1
     /\ UNCHANGED <<cfg, snd>>
 
-SDeliver == SDeliverAdjust \/ SDeliverClose
+Hooks == {<<>>, <<"close", 0, 0>>} \cup {<<"write", s, n>> : s \in 0..2, n \in 1..cfg.maxn}
+SDeliver(h) == SDeliverAdjust(h) \/ (h = <<>> /\ SDeliverClose)
 RDeliver == RDeliverData \/ RDeliverClose
 
 (* cfg.maxn / cfg.maxadj bound the sizes the exhaustive runs choose; traces may carry any size *)
 Next == \/ \E s \in 0..2, n \in 1..cfg.maxn : AppWrite(s, n)
         \/ AppClose
-        \/ SDeliverAdjust
+        \/ \E h \in Hooks : SDeliverAdjust(h)
         \/ SDeliverClose
         \/ RDeliverData
         \/ RDeliverClose
